@@ -233,6 +233,12 @@ var fieldCorpus = map[byte][]string{
 // four bytes of a valid MQTT acknowledgement.
 var foreignOpenings = []string{"PUT ", "POST", "PATC", "PRI ", "PROX", "PING", "PASS", "PORT", "put ", "post", "ping", "pass", "prox", "bye ", "@ECH"}
 
+// LegacyProtocols: what CONNECT packets of MQTT 3.1 / 3.1.1 (and bridges) announce.
+var LegacyProtocols = []struct {
+	Name string
+	Ver  byte
+}{{"MQIsdp", 3}, {"MQTT", 4}, {"MQIsdp", 4}, {"MQTT", 3}, {"MQTT", 0x84}, {"MQIsdp", 0x83}, {"MQTT", 6}}
+
 // Packet draws one abstract packet.
 func Packet(t *sim.Tape, cfg Cfg) *ref.AP {
 	g := &G{T: t, Thorough: cfg.Thorough, big: 1}
@@ -268,13 +274,18 @@ func (g *G) ofType(typ byte, cfg *Cfg) *ref.AP {
 	case ref.Connect:
 		a.ProtoName = []byte("MQTT")
 		a.ProtoVer = 5
-		if !wf && t.Bool(1, 12) {
+		if !wf && t.Bool(1, 8) {
 			a.ProtoName = g.Str(g.T.Int(8))
 			if t.Bool(1, 2) {
 				// near misses of the real protocol name (and the v3.1 one)
 				a.ProtoName = []byte([]string{"mqtt", "Mqtt", "MQTt", "MQIsdp", "MQTT5", "MQT", "MQTT "}[t.Int(7)])
 			}
 			a.ProtoVer = byte(t.Int(256))
+			if t.Bool(1, 2) {
+				// the name/level pairs of the earlier protocol versions, exactly
+				pv := LegacyProtocols[t.Int(len(LegacyProtocols))]
+				a.ProtoName, a.ProtoVer = []byte(pv.Name), pv.Ver
+			}
 		}
 		if t.Bool(1, 2) {
 			a.ConnFlags |= ref.CFCleanStart
@@ -394,6 +405,23 @@ func (g *G) ofType(typ byte, cfg *Cfg) *ref.AP {
 		}
 		if cfg.Spec {
 			a.Form = t.Int(3)
+		}
+		if a.Reason >= 12 && t.Bool(1, 5) {
+			// a length that EQUALS a value: the body (or the property section) is padded
+			// so that its size relates to the reason-code byte by a small constant
+			// (heuristics that tell short forms apart by comparing a byte with a length)
+			want := int(a.Reason) + []int{3, 2, 4, 0, 1}[t.Int(5)] // body length
+			f0, _ := ref.Encode(a)
+			_, body, _, _ := ref.SplitFrame(f0)
+			if pad := want - len(body) - 5; pad >= 0 && (len(a.Props) > 0 || len(body) == 3 || pad >= 1) {
+				if len(a.Props) == 0 && len(body) == 3 {
+					pad-- // the property length byte appears with the first property
+				}
+				if pad >= 0 && pad < 120 {
+					a.Props = append(a.Props, ref.Prop{ID: 0x26, K: []byte("k"), V: g.str0(pad)})
+					a.Form = 2
+				}
+			}
 		}
 		if t.Bool(1, 30) {
 			// A frame whose first four bytes spell the opening of ANOTHER protocol (code
